@@ -195,8 +195,34 @@ def eval_factory(F, fn, table, rv, code):
                 return int((a == b) == (o == '=='))
             if not (isinstance(a, int) and isinstance(b, int)):
                 raise AnalysisBroken('createObject: non-integer comparison')
-            return int({'<': a < b, '<=': a <= b, '>': a > b, '>=': a >= b}[o]) if o in ('<', '<=', '>', '>=') else \
-                {'+': a + b, '-': a - b, '&': a & b, '|': a | b, '*': a * b}.get(o)
+            if o in ('<', '<=', '>', '>='):
+                return int({'<': a < b, '<=': a <= b, '>': a > b, '>=': a >= b}[o])
+            r_ = {'+': a + b, '-': a - b, '&': a & b, '|': a | b, '*': a * b}.get(o)
+            # the arithmetic of the expression's own type: unsigned differences wrap
+            t_ = (e.get('t') or '').replace('const ', '')
+            sz = SIZES.get(t_)
+            if r_ is not None and sz and (t_.startswith('unsigned') or t_.startswith('uint') or t_ in ('size_t', 'std::size_t')):
+                r_ &= (1 << (8 * sz)) - 1
+            return r_
+        if k == 'Call' and e.get('calleeInRoot'):
+            # a helper that only returns one expression over its parameters (EnvironmentVariable::servesObjectType(type)): evaluated on the values
+            cands = [c for c in F.functions.get(e.get('callee'), []) if c['sig'] == e.get('csig') and c.get('body')]
+            if len(cands) == 1:
+                rets = [r for r in walk(cands[0]['body'], into_lambda=False) if r.get('k') == 'Return' and r.get('value') is not None]
+                stm = cands[0]['body'].get('body', []) if cands[0]['body'].get('k') == 'Compound' else []
+                if len(rets) == 1 and all(isinstance(x, dict) and x.get('k') in ('Return', 'Decl') for x in stm) and len(cands[0].get('params', [])) == len(e.get('args', [])):
+                    saved = dict(env)
+                    for p_, a_ in zip(cands[0]['params'], e['args']):
+                        env[p_['id']] = val(a_)
+                    for x in stm:
+                        if x.get('k') == 'Decl':
+                            for v_ in x['vars']:
+                                env[v_['id']] = val(v_['init']) if v_.get('init') is not None else None
+                    try:
+                        return val(rets[0]['value'])
+                    finally:
+                        env.clear()
+                        env.update(saved)
         raise AnalysisBroken('createObject: unsupported expression %s at line %s' % (k, e0.get('l')))
 
     def run(s_):
@@ -415,6 +441,47 @@ def D6(F, rep):
                        % (short(fn['name']), ', '.join(used), short(i.get('name') or 'base')), nontrivial=bool(used))
     if n < 100:
         raise AnalysisBroken('D6: only %d base initialisers found' % n)
+
+
+def D8(F, rep):
+    """copies keep the identity: the copy / move assignment operators and copy / move constructors of the object classes and their headers
+    are the compiler's (implicit or defaulted) - or, when written by hand, they take over every member of the class.  An assignment that
+    leaves objectType (or any field) of the target alone makes `slot = objectRead` carry the slot's old code: the copy is then written,
+    and read back, as another type"""
+    n = 0
+    bad = []
+    classes = [c for c in serialised_records(F) if c != 'Vector::BLF::File' and not c.startswith('Vector::BLF::File::')]
+    for c in classes:
+        rec = F.records[c]
+        own = [f['name'] for f in rec['fields']]
+        n += 1
+        for q in (c + '::operator=', c + '::' + c.split('::')[-1]):
+            for fn in F.functions.get(q, []):
+                if not fn.get('body') or fn.get('defaulted'):
+                    continue
+                ps = fn.get('params', [])
+                if len(ps) != 1 or c.split('::')[-1] not in (ps[0].get('t') or '') or '&' not in (ps[0].get('t') or ''):
+                    continue     # not a copy / move operation
+                taken = {i.get('name') for i in fn.get('inits', []) or [] if i.get('kind') == 'member' and i.get('written', True)}
+                for x in walk(fn['body']):
+                    if x.get('k') == 'Bin' and x.get('op') == '=' or (x.get('k') == 'Call' and x.get('ck') == 'operator' and x.get('op') == '='):
+                        lhs = x['lhs'] if x.get('k') == 'Bin' else (x.get('args') or [None])[0]
+                        t = strip_all_casts(lhs) if lhs is not None else None
+                        if isinstance(t, dict) and t.get('k') == 'Member' and t.get('name') in own:
+                            taken.add(t['name'])
+                    if x.get('k') == 'Call' and x.get('fn') == 'swap':
+                        for a in [x.get('obj')] + list(x.get('args', [])):
+                            t = strip_all_casts(a) if a is not None else None
+                            if isinstance(t, dict) and t.get('k') == 'Member' and t.get('name') in own:
+                                taken.add(t['name'])
+                missing = [f for f in own if f not in taken]
+                if missing:
+                    bad.append((fn, missing))
+    rep.count('D8')
+    rep.ob('D8', 'copies|complete', not bad and n > 100, rep.fn_site(bad[0][0]) if bad else None,
+           'no hand-written copy / move operation of the %d serialised classes leaves a member behind' % n if not bad and n > 100 else
+           ('%s does not take over %s: a copy keeps the target\'s old value there - an object assigned into a slot of the same class is written under the '
+            'slot\'s type code' % (short(bad[0][0]['name']), ', '.join(bad[0][1]))) if bad else 'only %d serialised classes found' % n, nontrivial=True)
 
 
 def serialised_records(F):
